@@ -247,10 +247,18 @@ impl InnerNodeManage {
         if self.all_nodes.is_empty() {
             ProcessRange::new(0, 1)
         } else {
-            ProcessRange::new(
-                self.get_this_node().index as usize,
-                self.all_nodes.iter().filter(|(_, v)| v.is_valid()).count(),
-            )
+            // 负责范围按当前有效节点计算：下标与长度都取自有效节点列表，与 route_addr 的路由规则保持一致
+            let valid_ids: Vec<u64> = self
+                .all_nodes
+                .iter()
+                .filter(|(_, v)| v.is_valid())
+                .map(|(k, _)| *k)
+                .collect();
+            let index = valid_ids
+                .iter()
+                .position(|id| *id == self.local_id)
+                .unwrap_or(self.get_this_node().index as usize);
+            ProcessRange::new(index, valid_ids.len())
         }
     }
 
